@@ -89,6 +89,12 @@ RULES = {
     #      every pair in iteration order)
     "R29": [(re.compile(r"\b(\w+(?:\s*\.\s*\w+)*)\s*\.\s*extend\(\s*([\w\.\s]+?)\s*\.\s*iter\(\)\s*\.\s*map\(\s*\|\s*(\w+)\s*\|\s*\(([^,()]+),\s*([^;]*?)\)\s*\)\s*,?\s*\)\s*;", re.S),
              lambda m: "for %s in %s.iter() { %s.insert(%s, %s); }" % (m.group(3), "".join(m.group(2).split()), "".join(m.group(1).split()), m.group(4).strip(), m.group(5).strip()))],
+    # R31: `let M: BTreeMap<K, V> = R.values().cloned().collect();` / `M.extend(R.values().cloned());` (R a map of pairs)
+    #      -> the loop that defines it: every value pair of R, in R's iteration order, is inserted into M (later wins)
+    "R31": [(re.compile(r"let\s+(\w+)\s*:\s*(BTreeMap<[^=;]*>)\s*=\s*(\w+(?:\s*\.\s*\w+)*)\s*\.\s*values\(\)\s*\.\s*cloned\(\)\s*\.\s*collect\(\)\s*;", re.S),
+             lambda m: "let mut %s: %s = BTreeMap::new(); { let mut __bi = vf_bt_iter(%s); loop { match __bi.next() { Some((_, __p)) => { %s.insert(__p.0, __p.1.clone()); } None => break, } } }" % (m.group(1), " ".join(m.group(2).split()), "".join(m.group(3).split()), m.group(1))),
+            (re.compile(r"\b(\w+)\s*\.\s*extend\(\s*(\w+(?:\s*\.\s*\w+)*)\s*\.\s*values\(\)\s*\.\s*cloned\(\)\s*\)\s*;", re.S),
+             lambda m: "{ let mut __bi = vf_bt_iter(%s); loop { match __bi.next() { Some((_, __p)) => { %s.insert(__p.0, __p.1.clone()); } None => break, } } }" % ("".join(m.group(2).split()), m.group(1)))],
     # R21: `v.try_into()` on a `&FieldValue` -> generic wrapper fn (std's blanket TryInto has no Verus specification)
     "R21": [(re.compile(r"\b(\w+)\s*\.\s*try_into\(\)"), r"vf_try_into(\1)")],
 }
@@ -725,7 +731,10 @@ class Extractor:
         k = pre.rfind("}")
         k2 = pre.rfind(";")
         attrs = s.text[max(0, a - 600):a][max(k, k2) + 1:]
-        if re.search(r"derive\([^)]*\bCopy\b", attrs) and "nocopy" not in args[3:]:
+        if "ord" in args[3:] and re.search(r"derive\([^)]*\bOrd\b", attrs):
+            # a map key: the derived comparison traits are kept as well (only if /repo derives them)
+            txt = "#[derive(PartialEq, Eq, PartialOrd, Ord, Clone, Copy)]\n" + txt
+        elif re.search(r"derive\([^)]*\bCopy\b", attrs) and "nocopy" not in args[3:]:
             txt = "#[derive(Clone, Copy)]\n" + txt
         self.meta["types"].append({"name": name, "src": src, "sha256": hashlib.sha256(raw.encode()).hexdigest()[:16]})
         return txt + "\n"
